@@ -64,7 +64,24 @@ def gen_case(rng, ln):
     return ops
 
 
+def directed(rng):
+    """windows the random walk rarely reaches: a type that has NO subscription when the stream restarts, then comes
+    back; ACK/NACK right after a restart; a response for a type that was never subscribed; restart while blocked."""
+    t, o = rng.choice([("A", "B"), ("B", "A")])
+    n1, n2 = rng.sample(NAMES, 2)
+    pre = ["up", "sleep 1000", "sub %s %s" % (o, n2), "sub %s %s" % (t, n1), "recv %s v1 n1 ack %s" % (t, n1), "done"]
+    yield pre + ["unsub %s %s" % (t, n1), "break", "sleep 1000", "sub %s %s" % (t, n1), "recv %s v2 n2 ack %s" % (t, n1), "done"]
+    yield pre + ["unsub %s %s" % (t, n1), "recv %s v2 n2 ack -" % o, "done", "break", "sub %s %s" % (t, n2), "sleep 1000"]
+    yield pre + ["recv %s v2 n2 nack %s" % (t, n1), "break", "done", "sleep 1000", "recv %s v3 n3 ack %s" % (t, n1), "done"]
+    yield pre + ["down", "break", "sleep 3000", "unsub %s %s" % (t, n1), "up", "sleep 1000", "sub %s %s" % (t, n1)]
+    yield ["up", "sleep 1000", "recv %s v1 n1 ack -" % t, "sub %s %s" % (t, n1), "done", "recv %s v2 n2 ack %s" % (t, n1)]
+    yield pre + ["recv %s v2 n2 ack %s" % (t, n1), "recv %s v3 n3 nack %s" % (t, n1), "break", "done", "done", "sleep 1000"]
+
+
 def gen(rng, tier):
+    for k in range({"quick": 6, "thorough": 60, "search": 40}[tier]):
+        for i, ops in enumerate(directed(rng)):
+            yield Case("s_ads", ops + gen_case(rng, rng.randrange(0, 8)), "directed-%d-%d" % (k, i))
     n, ln = {"quick": (300, 35), "thorough": (8000, 60), "search": (4000, 50)}[tier]
     for i in range(n):
         yield Case("s_ads", gen_case(rng, rng.randrange(8, ln)), "ads-%d" % i)
